@@ -1,6 +1,7 @@
 package main
 
 import (
+	textnorm "golang.org/x/text/unicode/norm"
 	"encoding/base64"
 	"fmt"
 	"go/types"
@@ -472,6 +473,11 @@ func (e *Engine) resolveIntrinsic(fn *ssa.Function, fi *fnInfo) intrinsicFn {
 			return noopIntrinsic
 		}
 		return func(in *Interp, fn *ssa.Function, args []Value, caller *frame, site ssa.Instruction) (Value, bool) {
+			if pkg == "reflect" && in.eng.inInit {
+				// package-level `var t = reflect.TypeFor[T]()` of interpreted libraries (encoding/xml): the value is only
+				// used by the reflection-based Marshal/Unmarshal paths, which stay unsupported when reached
+				return noopIntrinsic(in, fn, args, caller, site)
+			}
 			unsup("call into native-only package: %s", name)
 			return nil, false
 		}
@@ -1101,6 +1107,37 @@ func init() {
 		to.store(from)
 		return Iface{}, true
 	})
+	// deepMatch(name, pattern) (pkg/yqlib/matchKeyString.go) is interpreted from its real SSA whenever both strings
+	// are byte ropes. When an integer-format atom is involved (the text of a computed number), the glob walk cannot
+	// index it; then the summary "a pattern without * and ? matches exactly the equal name" is used. The summary
+	// is itself proved against the real deepMatch by the lemma harness VerifC01DeepMatchLemma (C01).
+	reg("github.com/mikefarah/yq/v4/pkg/yqlib.deepMatch", func(in *Interp, fn *ssa.Function, a []Value, c *frame, s ssa.Instruction) (Value, bool) {
+		name, pat := strArgVal(in, a[0]), strArgVal(in, a[1])
+		if !hasAtoms(name) && !hasAtoms(pat) {
+			return nil, false
+		}
+		if _, ok := pat.(*FD); ok {
+			return nil, false
+		}
+		for _, p := range partsOf(pat) {
+			switch {
+			case p.atom != nil:
+				if p.atom.kind != 0 {
+					unsup("deepMatch with an opaque pattern")
+				}
+			case p.b != nil:
+				// a symbolic byte of the pattern: the summary applies on the paths where it is no wildcard
+				if in.decide(mkOr(mkEq(p.b, mkConst('*', 8)), mkEq(p.b, mkConst('?', 8)))) {
+					unsup("deepMatch of a number text against a wildcard pattern")
+				}
+			default:
+				if strings.ContainsAny(p.lit, "*?") {
+					unsup("deepMatch of a number text against a wildcard pattern")
+				}
+			}
+		}
+		return symBool(strEq(name, pat)), true
+	})
 	reg("internal/stringslite.Clone", func(in *Interp, fn *ssa.Function, a []Value, c *frame, s ssa.Instruction) (Value, bool) {
 		return a[0], true
 	})
@@ -1111,6 +1148,10 @@ func init() {
 		// Unicode normalisation is the identity on ASCII (Unicode standard, UAX #15); non-ASCII input is outside the model
 		str := strArgVal(in, a[1])
 		if cs, ok := str.(string); ok {
+			// concrete text: the real library (linked into the engine at the version /repo requires)
+			if f, ok := a[0].(Int); ok {
+				return textnorm.Form(f.v).String(cs), true
+			}
 			for i := 0; i < len(cs); i++ {
 				if cs[i] >= 0x80 {
 					unsup("norm.Form.String on non-ASCII text")
